@@ -132,11 +132,13 @@ def prepare(need_goldens=(), allow_slow=True):
     base = read_fixture()
     bpdump = build_bpdump(base)
     binsha = sha256_file(pavexc)
-    key = sha256_bytes(f"{binsha}|{fixture_digest(base)}|{sha256_file(SHIM_SRC)}|{FORMAT_VERSION}".encode())[:16]
+    inputs = repo_inputs_digest()
+    key = sha256_bytes(f"{binsha}|{fixture_digest(base)}|{sha256_file(SHIM_SRC)}|{FORMAT_VERSION}|{inputs}".encode())[:16]
     state_dir = os.path.join(WORK, "state", key)
     os.makedirs(state_dir, exist_ok=True)
     ctx = Ctx()
     ctx.pavexc, ctx.binsha, ctx.key, ctx.state_dir, ctx.corpus, ctx.base = pavexc, binsha, key, state_dir, corpus, base
+    ctx.inputs = inputs
     lock = open(os.path.join(WORK, "state", key + ".lock"), "w")
     fcntl.flock(lock, fcntl.LOCK_EX)
     try:
@@ -273,9 +275,10 @@ def store_golden(ctx, slot, bp, tog, ex):
     W.rmtree(tmp)
     os.makedirs(tmp)
     files = {}
-    if ex["signal"] is not None or ex["exit"] not in (0, 1):
-        harness_error(f"golden run of {bp}/{state_key(tog)} ended abnormally (exit {ex['exit']} signal {ex['signal']}): "
-                      f"{ex['stderr'][-600:]}")
+    if ex["timed_out"]:
+        harness_error(f"golden run of {bp}/{state_key(tog)} timed out")
+    # An abnormal end (panic, signal) of the clean-world run is recorded as it is: it gives no reference
+    # verdict, and the same abnormal end shows up in ordinary histories as a C09 violation.
     if ex["exit"] == 0:
         ws = slot.proj("p0")
         for rel in ("sdk/Cargo.toml", "sdk/src/lib.rs", "Cargo.toml", "diag.dot"):
@@ -283,7 +286,7 @@ def store_golden(ctx, slot, bp, tog, ex):
             files[rel] = sha256_bytes(data)
             with open(os.path.join(tmp, rel.replace("/", "__")), "wb") as f:
                 f.write(data)
-    meta = {"bp": bp, "toggles": list(tog), "exit": ex["exit"], "files": files, "n_errors": ex["n_errors"],
+    meta = {"bp": bp, "toggles": list(tog), "exit": ex["exit"] if ex["signal"] is None else -ex["signal"], "files": files, "n_errors": ex["n_errors"],
             "wall_s": ex["wall_s"], "stderr_tail": ex["stderr"][-1500:]}
     with open(os.path.join(tmp, "golden.json"), "w") as f:
         json.dump(meta, f, indent=1)
@@ -831,6 +834,9 @@ def cmd_check(prop, tier):
     for l in lines:
         print(l)
     sys.stdout.flush()
+    if repo_inputs_digest() != ctx.inputs or sha256_file(ctx.pavexc) != ctx.binsha:
+        harness_error("the sources of /repo/runtime (inputs of every execution) or the pavexc binary changed while the batch "
+                      "was running; the results above are not trustworthy, run the check again")
     if divergences:
         harness_error("nondeterminism: the same history gave different executions twice: " + "; ".join(divergences[:3]))
     if inexact:
